@@ -413,37 +413,110 @@ theorem C14_meta_all_raw_differs : ¬ C14_sql_refines_old_Statement := by
   have := equiv_listing_length this.2.1
   simp at this
 
-/-! ### obligations about facts extracted from the current source (PyroModel/Gen/C14.lean) -/
+/-! ### obligations about facts obtained from the current source (PyroModel/Gen/C14.lean)
 
-/-- Every `execute` / explicit `commit` of every `SqlStorage` method that `NameServer` uses carries, in
-    source order, exactly the SQL text the model's statements stand for (in particular the prefix query
-    is the literal `substr(name,1,?)=?` comparison, not `LIKE`). -/
-theorem C14_gen_sql :
-    Pyro.Gen.C14.sqlStmts = methodStmts.map (fun m => (m.1, m.2.map Stmt.text)) := by decide
+  The facts are *probed*, not read off the syntax: the extractor calls the real `SqlStorage` methods on a fixed
+  table of inputs against a tracing sqlite3 connection and records what was executed.  Here the same calls are
+  made on the model and the statement traces are compared.  How the source spells the calls (helpers, local
+  names, where a text constant lives) does not matter; what is executed does. -/
 
-/-- The parameters the source passes with the statements whose meaning depends on them: the prefix query
-    gets `(len(prefix), prefix)`; the metadata_all query gets the de-duplicated tag list followed by its
-    length; the metadata_any query the tag list. -/
-theorem C14_gen_params :
-    (Pyro.Gen.C14.sqlParams.lookup "optimized_prefix_list" = some ["(len(prefix), prefix)", "(dbid,)", "(len(prefix), prefix)"]) ∧
-    Pyro.Gen.C14.metaAllPrep = ["metadata_all = set(metadata_all)", "params = list(metadata_all)", "params.append(len(metadata_all))"] ∧
-    Pyro.Gen.C14.metaAnyPrep = ["params = list(metadata_any)"] ∧
-    (Pyro.Gen.C14.sqlParams.lookup "__getitem__" = some ["(item,)", "(dbid,)"]) ∧
-    (Pyro.Gen.C14.sqlParams.lookup "__setitem__" = some ["", "(key,)", "(dbid,)", "(dbid,)", "(key, uri)", "(object_id, m)", ""]) ∧
-    (Pyro.Gen.C14.sqlParams.lookup "__contains__" = some ["(item,)"]) ∧
-    (Pyro.Gen.C14.sqlParams.lookup "__delitem__" = some ["", "(key,)", "(dbid,)", "(dbid,)", ""]) ∧
-    (Pyro.Gen.C14.sqlParams.lookup "remove_items" = some ["", "(item,)", "(dbid,)", "(dbid,)", ""]) ∧
-    (Pyro.Gen.C14.sqlParams.lookup "optimized_metadata_search" = some ["params", "params", "(dbid,)"]) := by decide
+def removeBy {α : Type} (eq : α → α → Bool) (a : α) : List α → Option (List α)
+  | [] => none
+  | b :: l => if eq a b then some l else (removeBy eq a l).map (b :: ·)
 
-/-- The schema the model's constraints stand for (integer primary key, UNIQUE name, FOREIGN KEY object),
-    the SQL-executing methods outside the model are exactly `__init__`, `_create_schema`, `clear`, and every
-    method opens its own connection on the database file. -/
+/-- same members with the same multiplicities, members compared by `eq` -/
+def permBy {α : Type} (eq : α → α → Bool) : List α → List α → Bool
+  | [], l => l.isEmpty
+  | a :: as, l =>
+    match removeBy eq a l with
+    | some l' => permBy eq as l'
+    | none => false
+
+def argOf : Nat ⊕ List Nat → Arg
+  | .inl n => .int n
+  | .inr s => .str s
+
+def decodeCall : String → List Str → Bool → Bool → Option Call
+  | "getItem", [n], _, _ => some (.getItem n)
+  | "setItem", n :: u :: t, _, _ => some (.setItem n u t)
+  | "len", [], _, _ => some .len
+  | "contains", [n], _, _ => some (.contains n)
+  | "delItem", [n], _, _ => some (.delItem n)
+  | "iter", [], _, _ => some .iter
+  | "optPrefix", [p], wm, _ => some (.optPrefix p wm)
+  | "optRegex", [r], wm, _ => some (.optRegex r wm)
+  | "optMeta", ts, wm, all => some (.optMeta all ts wm)
+  | "removeItems", l, _, _ => some (.removeItems l)
+  | "everything", [], wm, _ => some (.everything wm)
+  | _, _, _, _ => none
+
+/-- one connection per call, used as a context manager; the statements in between -/
+def expectedEvents (t : List (Stmt × List Arg)) : List (String × List Arg) :=
+  ("CONNECT", []) :: t.map (fun x => (x.1.text, x.2)) ++ [("EXIT", [])]
+
+/-- Texts agree in order; (text, parameters) agree as multisets with each parameter tuple compared as a
+    multiset — the order in which Python iterates a `set` of tags is not fixed. -/
+def eventsAgree (model : List (String × List Arg)) (real : List (String × List Arg)) : Bool :=
+  model.map (·.1) == real.map (·.1) &&
+  permBy (fun a b => a.1 == b.1 && permBy (· == ·) a.2 b.2) model real
+
+/-- replay the recorded calls on the model, threading the tables -/
+def probesOK : List (String × List (List Nat) × Bool × Bool × Option (List (String × List (Nat ⊕ List Nat)))) → Db → Bool
+  | [], _ => true
+  | (kind, strs, wm, all, real) :: rest, db =>
+    match decodeCall kind strs wm all with
+    | none => false
+    | some c =>
+      (match (c.probe db).1, real with
+       | none, none => true
+       | some t, some r => eventsAgree (expectedEvents t) (r.map fun e => (e.1, e.2.map argOf))
+       | _, _ => false) && probesOK rest (c.probe db).2
+
+/-- **Statements really executed = statements of the model.**  For every probed call of every `SqlStorage`
+    method `NameServer` uses (each branch of each method taken), the real code opened exactly one connection,
+    used it as a context manager, and executed exactly the model's statements for that call on the model's
+    tables: same SQL text in the same order, same parameter values (in particular `(len(prefix), prefix)` for
+    the literal prefix query, the *distinct* tags followed by their number for `metadata_all`, row ids
+    allocated as largest+1), explicit commits in the same places; `optimized_regex_list` touches no connection. -/
+theorem C14_gen_sql : probesOK Pyro.Gen.C14.probes Db.empty = true := by decide
+
+set_option maxRecDepth 10000 in
+/-- the probe table exercises every statement of the model at least once -/
+theorem C14_gen_cover :
+    allStmts.all (fun st => Pyro.Gen.C14.probes.any fun p =>
+      match p.2.2.2.2 with
+      | some ev => ev.any (fun e => e.1 == st.text)
+      | none => false) = true := by decide
+
+/-- SQL texts that occur in nameserver.py outside the modelled methods (`__init__`, `_create_schema`, `clear`) -/
+def otherTexts : List String :=
+  ["ALTER TABLE pyro_names RENAME TO pyro_names_old",
+   "CREATE TABLE pyro_metadata ( object integer NOT NULL, metadata nvarchar NOT NULL, FOREIGN KEY(object) REFERENCES pyro_names(id) );",
+   "CREATE TABLE pyro_names ( id integer PRIMARY KEY, name nvarchar NOT NULL UNIQUE, uri nvarchar NOT NULL );",
+   "DELETE FROM pyro_metadata", "DELETE FROM pyro_names", "DROP TABLE pyro_names_old",
+   "INSERT INTO pyro_names(name, uri) SELECT name, uri FROM pyro_names_old",
+   "SELECT COUNT(*) FROM pyro_metadata", "SELECT COUNT(*) FROM pyro_names", "VACUUM"]
+
+set_option maxRecDepth 10000 in
+/-- (lexical) The SQL texts occurring as string constants anywhere in the module are, as a set, the model's
+    statement texts plus the ten of schema creation / migration / `clear`: no other SQL exists that a path
+    not taken by the probes could execute. -/
+theorem C14_gen_texts :
+    Pyro.Gen.C14.sqlTexts.all (fun t => (allStmts.map Stmt.text ++ otherTexts).contains t) = true ∧
+    ((allStmts.filter (· != .commit)).map Stmt.text ++ otherTexts).all (fun t => Pyro.Gen.C14.sqlTexts.contains t) = true := by
+  decide
+
+set_option maxRecDepth 10000 in
+/-- The schema sqlite reports for a database created by `SqlStorage` is the one the model's constraints stand
+    for (integer primary key, UNIQUE name, FOREIGN KEY object → id); reopening an existing database executes
+    only the pragma, the two existence probes and a commit, and leaves the rows as they were. -/
 theorem C14_gen_schema :
     Pyro.Gen.C14.schema =
-      ["CREATE TABLE pyro_names ( id integer PRIMARY KEY, name nvarchar NOT NULL UNIQUE, uri nvarchar NOT NULL );",
-       "CREATE TABLE pyro_metadata ( object integer NOT NULL, metadata nvarchar NOT NULL, FOREIGN KEY(object) REFERENCES pyro_names(id) );"] ∧
-    Pyro.Gen.C14.otherSqlMethods = ["__init__", "_create_schema", "clear"] ∧
-    Pyro.Gen.C14.connects = ["sqlite3.connect(dbfile)", "sqlite3.connect(self.dbfile)", "sqlite3.connect(self.dbfile, isolation_level=None)"] := by
+      ["CREATE TABLE pyro_metadata ( object integer NOT NULL, metadata nvarchar NOT NULL, FOREIGN KEY(object) REFERENCES pyro_names(id) )",
+       "CREATE TABLE pyro_names ( id integer PRIMARY KEY, name nvarchar NOT NULL UNIQUE, uri nvarchar NOT NULL )"] ∧
+    Pyro.Gen.C14.reopenTrace = ["CONNECT", "PRAGMA foreign_keys=ON", "SELECT COUNT(*) FROM pyro_names",
+      "SELECT COUNT(*) FROM pyro_metadata", "COMMIT", "EXIT"] ∧
+    Pyro.Gen.C14.reopenKeepsRows = true := by
   decide
 
 /-- `core.NAMESERVER_NAME` is the name the model protects. -/
